@@ -9,7 +9,7 @@ use refmodel::{Obs, ZNum};
 use vengine::{bo, n, ov, pr, same, v, vf};
 use vengine::{op, opn, Aux, Op};
 
-macro_rules! common {
+macro_rules! model {
     ($T:ty) => {{
         let t: Vec<Op<$T, Z>> = vec![
             // ---- model-based: Integer -----------------------------------------------------------
@@ -34,6 +34,14 @@ macro_rules! common {
             op!("PrimInt::unsigned_shl", 1, Aux::BitIdx, spec::nt_shl, |r, x| v(PrimInt::unsigned_shl(r[0], x as u32))),
             op!("PrimInt::signed_shr", 1, Aux::BitIdx, spec::nt_signed_shr, |r, x| v(PrimInt::signed_shr(r[0], x as u32))),
             op!("PrimInt::unsigned_shr", 1, Aux::BitIdx, spec::nt_unsigned_shr, |r, x| v(PrimInt::unsigned_shr(r[0], x as u32))),
+        ];
+        t
+    }};
+}
+
+macro_rules! fwd {
+    ($T:ty) => {{
+        let t: Vec<Op<$T, Z>> = vec![
             // ---- forwarders against the inherent methods ----------------------------------------
             op!("CheckedAdd", 2, Aux::None, spec::always_true, |r, _x| same(&|| ov(CheckedAdd::checked_add(&r[0], &r[1])), &|| ov(r[0].checked_add(r[1])))),
             op!("CheckedSub", 2, Aux::None, spec::always_true, |r, _x| same(&|| ov(CheckedSub::checked_sub(&r[0], &r[1])), &|| ov(r[0].checked_sub(r[1])))),
@@ -96,10 +104,16 @@ macro_rules! tables {
             use bnum::{$BInt, $BUint};
             use vengine::Subj;
             pub fn u<const N: usize, Z: ZNum>() -> Vec<Op<$BUint<N>, Z>> {
-                common!($BUint<N>)
+                model!($BUint<N>)
+            }
+            pub fn u_fwd<const N: usize, Z: ZNum>() -> Vec<Op<$BUint<N>, Z>> {
+                fwd!($BUint<N>)
+            }
+            pub fn i_fwd<const N: usize, Z: ZNum>() -> Vec<Op<$BInt<N>, Z>> {
+                fwd!($BInt<N>)
             }
             pub fn i<const N: usize, Z: ZNum>() -> Vec<Op<$BInt<N>, Z>> {
-                let mut t = common!($BInt<N>);
+                let mut t = model!($BInt<N>);
                 let more: Vec<Op<$BInt<N>, Z>> = vec![
                     op!("Signed::abs", 1, Aux::None, spec::nt_abs, |r, _x| v(Signed::abs(&r[0]))),
                     op!("Signed::abs_sub", 2, Aux::None, spec::nt_abs_sub, |r, _x| v(Signed::abs_sub(&r[0], &r[1]))),
